@@ -109,7 +109,7 @@ Proof.
     apply ce_same. assert (st1 = st') by (destruct g as [[it [|]]|]; inversion H; reflexivity). subst.
     unfold get_conn. rewrite E. reflexivity.
   - (* IDelete *)
-    destruct (items_delete st t) as [st' g] eqn:E. apply items_delete_spec in E. destruct E as (E&_).
+    destruct (items_delete_call st t lk) as [st' g] eqn:E. apply items_delete_call_spec in E. destruct E as (E&_).
     apply ce_same. assert (st1 = st') by (destruct g as [[it [|]]|]; inversion H; reflexivity). subst.
     unfold get_conn. rewrite E. reflexivity.
   - (* ITimerRun *)
